@@ -55,6 +55,17 @@ def run(ctx):
             pairs.append((i, j))
     for _ in range(2000 if ctx.quick else 40000):
         pairs.append((rng.randrange(len(progs)), rng.randrange(len(progs))))
+    # two differences at once: an earlier component spelled differently but EQUAL under the normalisation ('' vs '/'
+    # under an authority), and a later component that differs, in either direction - the comparison must go on
+    # to the later component
+    for a, b in (("http://h", "http://h/"), ("//h", "//h/"), ("http://u@h:81", "http://u@h:81/"), ("x://h", "x://h/")):
+        for qa, qb in (("?x=1", "?x=2"), ("?x=2", "?x=1"), ("", "?x"), ("?x", ""), ("#a", "#b"), ("#b", "#a"), ("?x=1#b", "?x=1#a"),
+                       ("?x", "?x"), ("?y#a", "?x#b"), ("", "#f")):
+            for l, r in ((a + qa, b + qb), (b + qa, a + qb)):
+                progs.append([["push", ["url", l]]])
+                progs.append([["push", ["url", r]]])
+                pairs.append((len(progs) - 2, len(progs) - 1))
+                pairs.append((len(progs) - 1, len(progs) - 2))
     obs = core.check_suite(ctx, "C10-observe", [("observe", [0, p]) for p in progs], split=True)
     cmp_reqs = []
     for i, j in pairs:
